@@ -727,16 +727,30 @@ def reported_status_is_recorded(ctx, prog, rule):
             if v != "Ok":
                 continue
             pay = T.operand(r["ops"][0])
-            # Ok(status) | Ok(Some(status)) | Ok(None)
-            if pay[0] == "agg" and pay[1][:3] == ("adt", "std::option::Option", "Some"):
-                pay = pay[2][0]
-            elif pay[0] == "agg" and pay[1][:3] == ("adt", "std::option::Option", "None"):
+            # Ok(status) | Ok(Some(status)) | Ok(None) | Ok(<an Option read out of the state: None, or Some(status)>), possibly unwrapped
+            def leaves_(x, depth=0):
+                x = M.noref(x)
+                if depth > 8:
+                    return [x]
+                if x[0] == "phi":
+                    return [y for a_ in x[1] for y in leaves_(a_, depth + 1)]
+                if x[0] == "agg" and x[1][:3] == ("adt", "std::option::Option", "Some"):
+                    return leaves_(x[2][0], depth + 1)
+                if x[0] == "agg" and x[1][:3] == ("adt", "std::option::Option", "None"):
+                    return []
+                if x[0] == "call" and x[1] in ("std::option::Option::<T>::unwrap", "std::option::Option::<T>::expect") and x[2]:
+                    return leaves_(x[2][0], depth + 1)
+                if x[0] == "field" and x[2] == "0" and x[1][0] == "downcast" and x[1][2] == "Some" and M.noref(x[1][1])[0] in ("phi", "agg"):
+                    return leaves_(x[1][1], depth + 1)
+                return [x]
+            lv = leaves_(pay)
+            if not lv:
                 continue
             n += 1
-            src = pay
-            # through the pure projection exit_status().unwrap()
-            s_ = M.strip(src)
-            ok = src == want or (s_[0] == "call" and s_[1] == "popen::Popen::exit_status" and M.noref(s_[2][0]) == ("param", 1, f.local_name(1)))
+            def is_recorded(x):
+                s_ = M.strip(x)
+                return x == M.noref(want) or x == want or (s_[0] == "call" and s_[1] == "popen::Popen::exit_status" and M.noref(s_[2][0]) == ("param", 1, f.local_name(1)))
+            ok = all(is_recorded(x) for x in lv)
             ctx.ob(rule, "%s.reported=recorded#%d" % (name, n), ok, f.loc(bb, si if si != "term" else None),
                    "%s returns the status %s: a reported status must be read out of self.child_state (Finished), never produced on the side while the state stays Running"
                    % (name, M.term_str(pay)[:80]))
